@@ -1,7 +1,6 @@
 package main
 
 import (
-	"crypto/sha256"
 	"encoding/hex"
 	"fmt"
 	"go/token"
@@ -91,29 +90,16 @@ func init() {
 		return in.bytesToSlice(ts)
 	}
 	intrinsics[rtPkg+"Digest"] = func(in *Interp, _ *frame, _ *ssa.Function, a []Value) Value {
-		name := in.newInputName(in.argStr(a[0]))
-		if in.hashLen == 0 {
-			in.unsupported("rt.Digest before rt.SetDigestLen")
-		}
-		if in.cfg.Concrete != nil {
-			var raw []byte
-			if iv, ok := in.cfg.Concrete[name]; ok {
-				raw = evalDigestExpr(iv.Value, in.hashLen)
-			} else {
-				s := sha256.Sum256([]byte("fresh:" + name))
-				raw = s[:in.hashLen]
-			}
-			ts := make([]*Term, in.hashLen)
-			for i := range ts {
-				ts[i] = in.tt.byteC[raw[i]]
-			}
-			return in.bytesToSlice(ts)
-		}
-		d := in.tt.Var(smtName(name), DSort)
-		inp := &Input{Name: name, Kind: "digest", T: []*Term{d}}
-		in.digestInputs = append(in.digestInputs, inp)
-		return in.bytesToSlice(in.digestBytes(d))
+		return in.freeDigest(in.argStr(a[0]))
 	}
+	freeMap := func(in *Interp, _ *frame, fn *ssa.Function, a []Value) Value {
+		name := in.argStr(a[0])
+		size := int(in.concreteInt(a[1].(*Term), true))
+		mt := fn.Signature.Results().At(0).Type().Underlying().(*types.Map)
+		return &Map{KeyT: mt.Key(), index: map[string]*mapEntry{}, lazy: name, lazySize: size}
+	}
+	intrinsics[rtPkg+"FreeDigestMap"] = freeMap
+	intrinsics[rtPkg+"FreeDigestMap10"] = freeMap
 	intrinsics[rtPkg+"Choose"] = func(in *Interp, _ *frame, _ *ssa.Function, a []Value) Value {
 		name := in.newInputName(in.argStr(a[0]))
 		n := int(in.concreteInt(a[1].(*Term), true))
